@@ -1087,6 +1087,18 @@ class AbsInt:
             return a
         if op == 'Mul' and a == ('c', 1):
             return c
+        if op == 'BitAnd':
+            # (k * 2^n * ..) & (2^m - 1) == 0 for m <= n: the low bits of a multiple (an allocation aligned as its layout asks)
+            for m_, x_ in ((a, c), (c, a)):
+                if m_[0] == 'c' and m_[1] >= 0 and (m_[1] + 1) & m_[1] == 0:
+                    y_ = x_
+                    for _ in range(4):
+                        if y_[0] in ('cast', 'wrap'):
+                            y_ = y_[1]
+                        elif y_[0] == 'u' and isinstance(y_[1], tuple) and len(y_[1]) == 2 and y_[1][0] == 'cast':
+                            y_ = y_[1][1]       # pointer <-> pointer / pointer -> address casts keep the address
+                    if y_[0] == 'bin' and y_[1] == 'Mul' and any(k_[0] == 'c' and k_[1] > 0 and k_[1] % (m_[1] + 1) == 0 for k_ in (y_[2], y_[3])):
+                        return ('c', 0)
         return ('bin', op, a, c)
 
     def is_mult(self, st, v, t, d=0):
@@ -2085,6 +2097,10 @@ class AbsInt:
                 return ('opt', 'Result', ('agg', 'layout', 0, (args[0], args[1])),
                         ('cmp', 'Le', args[0], ('c', (1 << 63) - 1 - (al - 1))))
             return None
+        if fn.endswith(('alloc::alloc', 'alloc::alloc_zeroed')) and len(args) == 1 and args[0][0] == 'agg' and args[0][1] == 'layout' \
+                and args[0][3][1][0] == 'c':
+            # the allocator contract: null, or aligned as the layout asks - in both cases a multiple of the alignment
+            return self.mk_bin('Mul', ('u', ('allocation', frame, b.path, bi), 'usize'), args[0][3][1])
         if fn.endswith('slice::from_raw_parts') or fn.endswith('slice::from_raw_parts_mut'):
             return ('rawslice', args[0], args[1])
         if fn.endswith('Vec::<T>::new') or fn.endswith('Vec::<T, A>::new'):
